@@ -102,6 +102,9 @@ static const char* kCurated[] = {
     "a: x; a': y; b: a",
     "a: x; b: a y; b': a",
     "a: x y; a': x; b: a; c: b ?0=1>a",
+    // redefined to a program that requests NOTHING: the dependency list of the previous execution must not survive
+    "a: x y; a': ; b: a",
+    "a: x !y; a': ; b: a z",
     // cycle-capable (cycle only in some external states / only after a dynamic request)
     "a: x ?0=1>b; b: y ?0=1>a",
     "a: x ?0=0>a",
@@ -112,6 +115,8 @@ static const char* kCurated[] = {
     "a: x !b; b: y !a",
     "a: x !d; d: b; b: d; b': y",
     "a: x !d; d: b; b: d; b': y; c: b",
+    // a recorded cycle made of scans only (no task in it), strictly BELOW the requested key
+    "a: x !b; b: y !a; c: a",
     // mixed
     "a: x ?0=1>y !z; b: a/S x; c: b a/M",
     "a: x; b: a ?0=1>y %collapse; c: b !x #cell",
@@ -1018,6 +1023,13 @@ int main(int argc, char** argv) {
     }
     if (p == "C01" || p == "C02")
       for (auto& wd : modesFamily()) { work.push_back({wd, "mem+d3"}); work.push_back({wd, "db+d3"}); }
+    if (p == "C01") {
+      // keys are byte strings: hostile spellings of every key (NUL inside, one key a prefix of another up to a NUL, 0xFF),
+      // the stored dependency names have to come back from the database unharmed
+      const char* kw[] = {"a: x y; b: a; c: b a", "a: x; b: y; c: a ?0=1>b", "a: x !y; b: a z", "a: x; b: a/S y; c: b a/M w"};
+      for (int ks = 1; ks <= 4; ++ks)
+        for (auto* wd : kw) work.push_back({wd, "db+k" + std::to_string(ks) + "+d3"});
+    }
   }
 
   g_current = (char*)mmap(nullptr, 65536, PROT_READ | PROT_WRITE, MAP_SHARED | MAP_ANONYMOUS, -1, 0);
